@@ -48,6 +48,7 @@ struct VecDef {
 
 struct StartDate { int y, m, d, hh, mi, ss; };
 
+static bool g_collapseTailName = false;   // stage argument collapse_tailname=1
 static int64_t days_from_civil(int y, int m, int d) {
     y -= m <= 2;
     const int64_t era = (y >= 0 ? y : y - 399) / 400;
@@ -645,7 +646,9 @@ static bool examine(vh::Reporter& rep, Rng& rng, Monitor& m, const std::vector<c
         return c;
     };
     // separate files "<X>CASE.S0001" of another run next to those of the run "CASE" that is opened: one input class, one key
-    m.contextKey = o.tailName ? "separate-files-of-other-run-picked-up" : "";
+    // (the library defect this key named - substring match in ESmry::checkForMultipleResultFiles - is repaired, /repo 44fdbe039;
+    //  with `collapse_tailname=1` every observation of such a case is filed under the one key again, as when the defect was live)
+    m.contextKey = (o.tailName && g_collapseTailName) ? "separate-files-of-other-run-picked-up" : "";
     // whether a reader failed while it was being constructed or later, also when it dies in a child process
     static int* const phase = (int*)mmap(nullptr, sizeof(int), PROT_READ | PROT_WRITE, MAP_SHARED | MAP_ANONYMOUS, -1, 0);
     const auto opened = [&] { *phase = 1; };
@@ -821,6 +824,7 @@ static std::string padDirTo(const std::string& dir, size_t totalLen, const std::
 int main(int argc, char** argv) {
     vh::Args args = vh::parse_args(argc, argv);
     vh::Reporter rep(args, "C10");
+    g_collapseTailName = args.geti("collapse_tailname", 0) != 0;
     const std::string scratch = fs::absolute(vh::scratch_dir(args)).string();
     const std::vector<int> counts = boundaryCounts();
     const long nEnum = (long)counts.size() * 4;
